@@ -35,6 +35,10 @@ pub struct Case {
     pub api: Api,
     pub how: String,
     pub u: Bytes,
+    /// replaces the private key the role pairs `u` with (the recipient's; for RecipientAtSender in an
+    /// Auth mode the sender identity key), the matching public key is recomputed
+    #[serde(default)]
+    pub sk_override: Option<Bytes>,
 }
 
 pub struct P;
@@ -49,9 +53,22 @@ fn check(case: &Case, obs: &mut Obs) -> Verdict {
         return Verdict::skip("not an X25519 case");
     }
     let d = suite::get(sess.suite);
-    let keys = sess.keys();
+    let mut keys = sess.keys();
     let u = &case.u.0;
     let auth = sess.mode & 2 != 0;
+    if let Some(sk) = &case.sk_override {
+        if sk.len() == 32 {
+            let pk = r::x25519().base(sk).to_vec();
+            if case.role == Role::RecipientAtSender {
+                keys.sk_s = sk.0.clone();
+                keys.pk_s = pk;
+            } else {
+                keys.sk_r = sk.0.clone();
+                keys.pk_r = pk;
+            }
+            obs.label("private-key:overridden");
+        }
+    }
     obs.label(format!("role:{:?}", case.role));
     obs.label(format!("api:{:?}", case.api));
     obs.label(format!("mode:{}", sess.mode));
@@ -228,6 +245,7 @@ impl Property for P {
         "Swept exhaustively: the 14 small-order encodings (u in {0,1,p-1,p,p+1, two order-8 values} x bit 255) x role {recipient key at sender, encapsulated key at receiver, sender identity key at receiver} x 4 modes x 3 KDFs x {sealing, export-only} x {setup, Kem::encap/decap, single-shot}, against 2 private-key sets. \
          Swept, decided by the arithmetic oracle: v + k*p (k = 0..3 while it fits 256 bits) and its neighbours (+-1, +-2, +-19) for the seven small-order u values v - the entries of low-order lists written for full 256-bit reduction, some of which are ordinary keys under RFC 7748 decoding - in 3 roles x 3 APIs, and all 256 single-bit neighbours of the seven encodings in 3 roles. \
          Swept and generated, constructed with the harness's own curve arithmetic: public keys P = [clamp(sk)^-1 mod q]R whose DH result R with the private key of the role (ephemeral, recipient, or the sender identity key in Auth modes) is non-zero but has an all-zero 64-bit limb, an all-zero half or a single non-zero byte (curve and twist); these must be accepted. \
+         Swept: the two clamped private scalars congruent to -1 mod l and +1 mod l' (DH result = the peer's own u-coordinate) as recipient key and as Auth sender identity key, against an honest key, the base point and a twist point. \
          Generated negatives: random 32-byte strings (with and without bit 255), small-order encodings with one bit flipped or an offset added, p+2..p+18, and keys related to the session (the expected sender key, the recipient's own key, the sender's ephemeral key presented in each role). \
          Oracle: the harness's own RFC 7748 ladder decides whether any DH in the operation is zero: zero => sender entry points Err(EncapError), receiver ones Err(DecapError), nothing produced; non-zero => setup succeeds (never rejected). \
          Non-trivial: small-order positives and near-miss negatives (everything except plain random strings)."
@@ -274,7 +292,7 @@ impl Property for P {
                     }
                     _ => {}
                 }
-                Case { sess, role, api, how, u: Bytes(u) }
+                Case { sess, role, api, how, u: Bytes(u), sk_override: None }
             })
             .boxed()
     }
@@ -295,7 +313,7 @@ impl Property for P {
                             for api in [Api::Setup, Api::Kem, Api::SingleShot] {
                                 for salt in [10u64, 11] {
                                     let s = Suite { kem: KemId::X25519, kdf, aead };
-                                    v.push(Case { sess: gen::cell_session(s, mode, salt), role, api, how: format!("small-order:{}", i), u: Bytes(u.to_vec()) });
+                                    v.push(Case { sess: gen::cell_session(s, mode, salt), role, api, how: format!("small-order:{}", i), u: Bytes(u.to_vec()), sk_override: None });
                                 }
                             }
                         }
@@ -311,7 +329,7 @@ impl Property for P {
             for role in [Role::RecipientAtSender, Role::EncAtReceiver, Role::SenderIdAtReceiver] {
                 for mode in 0..4u8 {
                     let s = Suite { kem: KemId::X25519, kdf: KdfId::Sha256, aead: AeadId::ChaCha };
-                    near.push(Case { sess: gen::cell_session(s, if role == Role::SenderIdAtReceiver { mode | 2 } else { mode }, 12), role, api: Api::Setup, how: format!("near-miss:{}", name), u: Bytes(u.to_vec()) });
+                    near.push(Case { sess: gen::cell_session(s, if role == Role::SenderIdAtReceiver { mode | 2 } else { mode }, 12), role, api: Api::Setup, how: format!("near-miss:{}", name), u: Bytes(u.to_vec()), sk_override: None });
                 }
             }
         }
@@ -326,7 +344,7 @@ impl Property for P {
                         _ => gen::ref_keypair(KemId::X25519, &sess.ikm_e()).1,
                     };
                     for api in [Api::Setup, Api::Kem] {
-                        near.push(Case { sess: sess.clone(), role, api, how: name.into(), u: Bytes(u.clone()) });
+                        near.push(Case { sess: sess.clone(), role, api, how: name.into(), u: Bytes(u.clone()), sk_override: None });
                     }
                 }
             }
@@ -380,7 +398,7 @@ impl Property for P {
                                     for api in [Api::Setup, Api::Kem, Api::SingleShot] {
                                         let s = Suite { kem: KemId::X25519, kdf: KdfId::Sha256, aead: AeadId::ChaCha };
                                         let mode = if role == Role::SenderIdAtReceiver { 2 } else { 0 };
-                                        aliases.push(Case { sess: gen::cell_session(s, mode, 15), role, api, how: format!("alias:v+{}p{:+}", k, delta), u: Bytes(y.to_vec()) });
+                                        aliases.push(Case { sess: gen::cell_session(s, mode, 15), role, api, how: format!("alias:v+{}p{:+}", k, delta), u: Bytes(y.to_vec()), sk_override: None });
                                     }
                                 }
                             }
@@ -398,7 +416,7 @@ impl Property for P {
                     for role in [Role::EncAtReceiver, Role::SenderIdAtReceiver, Role::RecipientAtSender] {
                         let s = Suite { kem: KemId::X25519, kdf: KdfId::Sha256, aead: AeadId::ChaCha };
                         let mode = if role == Role::SenderIdAtReceiver { 2 } else { 0 };
-                        aliases.push(Case { sess: gen::cell_session(s, mode, 16), role, api: Api::Kem, how: format!("bit-neighbour:{}", bit), u: Bytes(y.to_vec()) });
+                        aliases.push(Case { sess: gen::cell_session(s, mode, 16), role, api: Api::Kem, how: format!("bit-neighbour:{}", bit), u: Bytes(y.to_vec()), sk_override: None });
                     }
                 }
             }
@@ -420,16 +438,61 @@ impl Property for P {
                 let sess = gen::cell_session(s, mode, 17);
                 if let Some((name, pk)) = patterned_dh_key(&sess, role, ident, pattern, 1000 + pattern as u64) {
                     for api in [Api::Setup, Api::Kem, Api::SingleShot] {
-                        patterned.push(Case { sess: sess.clone(), role, api, how: format!("constructed:{}", name), u: Bytes(pk.clone()) });
+                        patterned.push(Case { sess: sess.clone(), role, api, how: format!("constructed:{}", name), u: Bytes(pk.clone()), sk_override: None });
+                    }
+                }
+            }
+        }
+        // private scalars that act as -1 on the curve's prime-order subgroup (5l - 1) resp. as +1 on the
+        // twist's (3l' + 1): the DH result has the same u-coordinate as the peer's key. Nothing is zero,
+        // nothing may be refused ("the result equals an input" is not a failure)
+        let mut special = Vec::new();
+        {
+            let s = Suite { kem: KemId::X25519, kdf: KdfId::Sha256, aead: AeadId::ChaCha };
+            let x = r::x25519();
+            let mut four = vec![0u64; 4];
+            four[0] = 4;
+            let mut twist_u = None;
+            for c in 0..64u64 {
+                let cand = gen::fill(32, 9, 4242 + c);
+                let mut cb = [0u8; 32];
+                cb.copy_from_slice(&cand);
+                cb[31] &= 0x7f;
+                // a point of the twist's prime-order subgroup: 4 * (a point that is not on the curve)
+                if x.dh_preimage(&gen::fill(32, 9, 1), &cb).is_none() {
+                    if let Some(q) = x.ladder_raw(&four, &cb) {
+                        let three_lt_plus_1 = crate::util::unhex("58083dd261ad91eff952322ec824c682ffffffffffffffffffffffffffffff5f");
+                        if x.x25519(&three_lt_plus_1, &q) == q {
+                            twist_u = Some(q.to_vec());
+                            break;
+                        }
+                    }
+                }
+            }
+            for (name, skhex) in [("5l-1", "a023cdd083ef5bb82f10d62e59e15a6800000000000000000000000000000050"), ("3l'+1", "58083dd261ad91eff952322ec824c682ffffffffffffffffffffffffffffff5f")] {
+                let sk = Bytes(crate::util::unhex(skhex));
+                for (role, mode) in [(Role::EncAtReceiver, 0u8), (Role::EncAtReceiver, 3), (Role::SenderIdAtReceiver, 2), (Role::RecipientAtSender, 2), (Role::RecipientAtSender, 3)] {
+                    let sess = gen::cell_session(s, mode, 18);
+                    let mut us: Vec<(String, Vec<u8>)> = vec![
+                        ("peer:honest-key".into(), gen::ref_keypair(KemId::X25519, &gen::fill(32, 9, 77)).1),
+                        ("peer:base-point".into(), { let mut b = vec![0u8; 32]; b[0] = 9; b }),
+                    ];
+                    if let Some(t) = &twist_u {
+                        us.push(("peer:twist-prime-order".into(), t.clone()));
+                    }
+                    for (uname, u) in us {
+                        for api in [Api::Setup, Api::Kem, Api::SingleShot] {
+                            special.push(Case { sess: sess.clone(), role, api, how: format!("special-scalar:{}:{}", name, uname), u: Bytes(u.clone()), sk_override: Some(sk.clone()) });
+                        }
                     }
                 }
             }
         }
         let mut all_ff = [0xffu8; 32];
-        near.push(Case { sess: gen::cell_session(Suite { kem: KemId::X25519, kdf: KdfId::Sha256, aead: AeadId::ChaCha }, 0, 13), role: Role::EncAtReceiver, api: Api::Setup, how: "near-miss:2^256-1".into(), u: Bytes(all_ff.to_vec()) });
+        near.push(Case { sess: gen::cell_session(Suite { kem: KemId::X25519, kdf: KdfId::Sha256, aead: AeadId::ChaCha }, 0, 13), role: Role::EncAtReceiver, api: Api::Setup, how: "near-miss:2^256-1".into(), u: Bytes(all_ff.to_vec()), sk_override: None });
         all_ff[31] = 0x7f;
-        near.push(Case { sess: gen::cell_session(Suite { kem: KemId::X25519, kdf: KdfId::Sha256, aead: AeadId::ChaCha }, 0, 13), role: Role::EncAtReceiver, api: Api::Setup, how: "near-miss:2^255-1".into(), u: Bytes(all_ff.to_vec()) });
-        vec![("small_order_14_x_roles_x_modes_x_kdf_x_aead_x_api".into(), v), ("fixed_near_misses".into(), near), ("integer_aliases_and_bit_neighbours_of_small_order_u".into(), aliases), ("constructed_keys_with_patterned_dh_results".into(), patterned)]
+        near.push(Case { sess: gen::cell_session(Suite { kem: KemId::X25519, kdf: KdfId::Sha256, aead: AeadId::ChaCha }, 0, 13), role: Role::EncAtReceiver, api: Api::Setup, how: "near-miss:2^255-1".into(), u: Bytes(all_ff.to_vec()), sk_override: None });
+        vec![("small_order_14_x_roles_x_modes_x_kdf_x_aead_x_api".into(), v), ("fixed_near_misses".into(), near), ("integer_aliases_and_bit_neighbours_of_small_order_u".into(), aliases), ("constructed_keys_with_patterned_dh_results".into(), patterned), ("private_scalars_congruent_to_plus_minus_one".into(), special)]
     }
     fn check(&self, case: &Case, obs: &mut Obs) -> Verdict {
         check(case, obs)
